@@ -138,6 +138,7 @@ Proof.
     { intros s Hs Hi. apply HC in Hi. cbn [job_matches] in Hi.
       apply in_map_iff in Hi. destruct Hi as [t [Et Ht]]. apply filter_In in Ht.
       destruct Ht as [Ht P]. destruct (t_deleted t); [|discriminate].
+      apply andb_true_iff in P. destruct P as [P _].
       apply andb_true_iff in P. destruct P as [_ P]. apply negb_true_iff in P.
       eapply existsb_false_forall in P; [|exact Hs]. cbn in P.
       rewrite Et in P. rewrite N.eqb_refl in P. discriminate. }
@@ -187,7 +188,7 @@ Proof.
     destruct (choice_legal _ chosen max) eqn:CL; [|discriminate]. intros _.
     eapply prune_topics_good; [|exact HM]. apply (choice_legal_incl _ _ _ CL).
   - leaf. intros _. apply good_subs_upd. intros; apply skeep_deleted.
-  - destruct (sweep_each st (sort_ids chosen) wnow fr) as [[[st1 fr1] w] n] eqn:E.
+  - destruct (sweep_each st chosen wnow fr) as [[[st1 fr1] w] n] eqn:E.
     leaf. intros HN. apply app_eq_nil in HN. destruct HN as [_ HN].
     apply app_eq_nil in HN. destruct HN as [-> _].
     apply sweep_each_res in E. apply E. reflexivity.
